@@ -322,14 +322,14 @@ Lemma handle_pred : forall rf rep place ws, 1 <= rf -> 0 <= rep ->
   exists o, handle rf rep place ws = Some o
     /\ (o = OAck -> rep <= rf ->
         quorum_everywhere (List.length place) (success_threshold rf rep) (resps_of place ws) = true
-        /\ exists k, (k <= List.length ws)%nat /\ forall d obs obsr, (k <= d)%nat ->
-             pred_ok (CAck rf rep place ws obs obsr 200 d) = true)
+        /\ exists k, (k <= List.length ws)%nat /\ forall d hg obs obsr, (k <= d)%nat ->
+             pred_ok (CAck rf rep place ws hg obs obsr 200 d) = true)
     /\ (o = OFail -> quorum_everywhere (List.length place) (success_threshold rf rep) (resps_of place ws) = false).
 Proof.
   intros rf rep place ws Hrf Hrep Hwf. unfold handle.
   destruct (Nat.eqb_spec (List.length place) 0) as [E0|E0].
   - exists OAck. split; [reflexivity|]. split; [|discriminate]. intros _ Hle.
-    rewrite E0. split; [reflexivity|]. exists 0%nat. split; [lia|]. intros d obs obsr _. cbn [pred_ok].
+    rewrite E0. split; [reflexivity|]. exists 0%nat. split; [lia|]. intros d hg obs obsr _. cbn [pred_ok].
     rewrite E0. destruct (negb (rep >? rf)); reflexivity.
   - destruct (rep >? rf) eqn:Er.
     + exists OBadReplica. split; [reflexivity|]. split; discriminate.
@@ -342,7 +342,7 @@ Proof.
         split; [apply (fanout_ack_iff_quorum n nrep q ft rs Hsum Hwf); exact E|].
         destruct (fanout_ack_after_quorum n nrep q ft rs Hsum Hwf E) as [k [Hk Hqk]].
         exists k. split; [unfold rs, resps_of in Hk; rewrite map_length in Hk; exact Hk|].
-        intros d obs obsr Hd. cbn [pred_ok]. rewrite Er. cbn [Z.eqb Pos.eqb negb andb].
+        intros d hg obs obsr Hd. cbn [pred_ok]. rewrite Er. cbn [Z.eqb Pos.eqb negb andb].
         rewrite (spec_threshold_is rf rep Hrf). fold n q rs. eapply quorum_firstn_mono; eauto.
       * exists OFail. split; [reflexivity|]. split; [discriminate|]. intros _.
         destruct (quorum_everywhere n q rs) eqn:Eq; [|reflexivity].
